@@ -218,7 +218,15 @@ def run(tier):
         cases.append(common.Case("s%d" % i, ["HOOK arena 1"], ["CHK " + p, "DUMP " + p, "RAWDUMP " + p],
                                  {"kind": "shipped", "name": tn}))
     # ---- fixed tables: F6 (grouping and swap variant), re-filed context rule
-    for nm, txt in (("f6g.ctb", F6_TABLE), ("f6s.ctb", F6_SWAP), ("rebucket.ctb", REBUCKET)):
+    # and a table whose swap and grouping rules lie beyond offset 0x10000 of the rule area (more than 512 KB of objects in
+    # front of them): references embedded in multipass programs are stored in two 16-bit halves (seeded change C12-D)
+    far = ["space \\s 0"] + ["letter %s %s" % (ch, d) for ch, d in zip("abcdefghij", "1 12 14 145 15 124 1245 125 24 245".split())]
+    words = ["".join("abcdefghij"[(k // 10 ** d) % 10] for d in range(4)) for k in range(7000 if quick else 9000)]
+    far += ["always %s 1-2-3-4-5" % wd + "-6" * (k % 3) for k, wd in enumerate(words)]
+    far += ["swapcd farswap abc 14,1,12", "grouping fargrp ab 3,6", "noback context [%farswap] %farswap",
+            "noback pass2 @1[%farswap]@2 %farswap", "nofor pass2 [{fargrp] {fargrp", "noback correct \"c\"[%farswap] *"]
+    FAR = "\n".join(far) + "\n"
+    for nm, txt in (("f6g.ctb", F6_TABLE), ("f6s.ctb", F6_SWAP), ("rebucket.ctb", REBUCKET), ("far.ctb", FAR)):
         cases.append(common.Case("fix-" + nm, ["HOOK arena 1", "TBL %s %s" % (nm, common.hexbytes(txt))],
                                  ["CHK " + nm, "DUMP " + nm, "RAWDUMP " + nm], {"kind": "fixed", "name": nm, "text": txt}))
     # ---- generated tables
